@@ -43,6 +43,11 @@ WMul(a, b) ==
 WRotl(a, k) == WOr(WShl(a, k), WShr(a, 8 * Len(a) - k))
 WIsZero(a) == \A i \in 1..Len(a) : a[i] = 0
 
+\* value of the word modulo a small natural m (m < 2^22), Horner from the top byte
+WMod(a, m) ==
+  LET r[i \in 0..Len(a)] == IF i = 0 THEN 0 ELSE (r[i - 1] * 256 + a[Len(a) + 1 - i]) % m
+  IN  r[Len(a)]
+
 \* the bytes key[from .. from+n-1] as an n-byte little-endian word, zero padded
 Block(key, from, n) == TLCEval([i \in 1..n |-> IF from + i - 1 <= Len(key) THEN key[from + i - 1] ELSE 0])
 
@@ -122,6 +127,9 @@ NlzDef(x) == 64 - BitLen(x)
 \* rank = leading zeros of (h >> p) - p + 1
 HllIdx(h, p)  == (h[1] + 256 * h[2]) % Pow2(p)
 HllRank(h, p) == Nlz64(WShr(h, p)) - p + 1
+
+\* count-min / heavy-hitter placement: row r (0-based) uses FastHash64 seeded with r
+CMCol(key, r, W) == WMod(FastHash64(key, WOf(r, 8)), W) + 1
 
 ---------------------------------------------------------------------------
 (* SMHasher VerificationTest: keys {0,1,..,i-1} for i = 0..255 hashed with seed 256-i;
